@@ -21,7 +21,8 @@ CFG = dict(
          "through the values at the returned positions plus a flag: indices in range, distinct, never of a null. "
          "nt=0 marks the empty series",
     theorem_hint="Props/C12.v: C12_quantile_*, C12_percentile_of, C12_rank_*, C12_partition_*, C12_arg_partition_*, "
-                 "C12_binary64_*, C12_quantile_index_binary64, C12_quantile_index_law_binary64, C12_quantile_total_binary64",
+                 "C12_binary64_*, C12_quantile_index_binary64, C12_quantile_index_law_binary64, C12_quantile_total_binary64, "
+                 "C12_*_any_carrier, C12_quantile_elements_binary64, C12_interpolation_binary64_*",
     level_text="Proof (Coq, carrier option R): 17 theorems about the Gallina model of vquantile / vmedian, vpercentile_of, "
                "vrank, vpartition and varg_partition, for every series and every parameter, stated against ANY sorted "
                "arrangement s of the non-null elements: quantile = value at fractional index (n-1)q of s under the four "
@@ -43,6 +44,21 @@ CFG = dict(
                "included). Still NOT proved at binary64: the VALUE of the quantile (interpolation arithmetic vi + (vj - vi) * "
                "fraction is rounded; compared within 1e-9 by the correspondence run) and which of two neighbouring order "
                "statistics is selected when (n-1)q is within rounding distance of an integer (DESIGN 5.5). "
+               "AUDIT EXTENSION (16 further theorems, Proofs/Audit12.v + Audit12Float.v; matrix in notes/C12.md). At EVERY carrier "
+               "and every null dictionary (binary64, integers, Option<_>; no order law, axiom-free): vpartition returns Ok with "
+               "exactly k+1 entries = non-null elements of the series (a sub-multiset of size min(k+1,n)) followed by nulls only, "
+               "for every k incl. k >= len, both sort flags, both directions, whenever T::none() is a null; when T::none() panics "
+               "(integer element types) it panics exactly when padding is needed; varg_partition always returns k+1 entries = "
+               "min(k+1,n) distinct positions of NON-NULL elements followed by -1 only; vquantile, given floor <= ceil < n, is "
+               "qvalue(vi, vj) of two non-null ELEMENTS of the series (lower / higher / exact index return an element unchanged), "
+               "n = 0 gives null, n = 1 the only valid element; vpercentile_of is the documented proportion of the three counters "
+               "(# non-null below / equal / total, in the carrier's comparisons); vrank output has the input's length. AT BINARY64: "
+               "the index premises hold, so the quantile of every series with >= 2 valid elements is computed from two elements of "
+               "the input; the interpolation fl(vi + fl(fl(vj - vi) * fraction)) with 0 <= fraction <= 1 and no overflow is finite "
+               "and lies between vi and fl(vi + fl(vj - vi)) on vj's side of vi; it lies in [vi, vj] when vj - vi is exact "
+               "(Sterbenz: within a factor 2); and witnesses that WITHOUT exactness 'in [vi, vj]' is false at fraction = 1, reachable through vquantile itself (50 elements, q = fl(1/49): linear above higher by 2^-53). "
+               "Still partial: the upper bound for fraction < 1 without exactness, fraction in [0,1] as computed by the code, "
+               "average ranks at a generic ordered carrier (proved at option R), which arrangement the selection picks on ties. "
                "The model is tied to the code by the differential run described in the rule.",
     level_note="Trusted: Coq kernel + Reals axioms for the theorems stated over option R; for the binary64 theorems "
                "additionally the standard library's specification of the primitive float operations (Floats/FloatAxioms.v: "
